@@ -121,7 +121,7 @@ func (w *World) defaultChoice() (Event, bool) {
 		if len(n.LocalQ) > 0 {
 			return Event{Kind: EvLocal, Node: id}, true
 		}
-		if len(n.AppendQ) > 0 {
+		if len(n.AppendQ) > 0 && !n.AppendPaused {
 			return Event{Kind: EvAppend, Node: id}, true
 		}
 		if len(n.ApplyQ) > 0 && !n.ApplyPaused {
